@@ -1194,6 +1194,30 @@ def _gen_key_dtypes(tier, rng, cnt0):
                 if c['cs'] is None and not (nl * nr + nl + nr < MODEL_BIG):
                     continue
                 yield c
+    # change-directed: a small integer literal K that is new in the tree under test may be a threshold on a key value, a
+    # key-column length or a chunk size: key values and lengths K-1, K, K+1, 2K with chunk sizes around K, on both paths
+    for K in hot.hot_sizes():
+        if not (2 <= K <= 400):
+            continue
+        for n in (K - 1, K, K + 1, 2 * K):
+            for how, path in [(h, 'pandas') for h in HOWS] + [(h, 'streamed') for h in ('left', 'right', 'inner')]:
+                a, b = rng.choice([('int32', 'int64'), ('int64', 'int32'), ('uint16', 'int32'), ('int64', 'int64'),
+                                   ('int16', 'uint32')])
+                Lz = sorted(rng.sample(range(0, 2 * n + 2), n))
+                Rz = sorted(rng.sample(range(0, 2 * n + 2), rng.choice([n, max(1, K - 1), min(n, 3)])))
+                for side, dt in ((Lz, a), (Rz, b)):
+                    for v in (K - 1, K, K + 1, 2 * K, K + (1 << 16), K + (1 << 32)):
+                        if INT_RANGE[dt][0] <= v <= INT_RANGE[dt][1] and rng.random() < 0.5 and v not in side:
+                            side.append(v)
+                    side.sort()
+                fl = {'keys': [Lz], 'kn': ['k'], 'cols': [['ia', _payload('i', len(Lz), 'l')]], 'dt': {'k': a}}
+                fr = {'keys': [Rz], 'kn': ['kr'], 'cols': [['ip', _payload('i', len(Rz), 'r')]], 'dt': {'kr': b}}
+                c = {'how': how, 'L': fl, 'R': fr, 'lf': None, 'rf': None}
+                c['hints'] = [True, rng.random() < 0.5, True, rng.random() < 0.5] if path == 'streamed' else [None] * 4
+                # (the pandas path reads none of the sizes; they are given so that the model is not asked for 1<<20 buffers)
+                c.update(cs=max(2, rng.choice([K - 1, K, K + 1, 2 * K])), mcs=max(1, rng.choice([K - 1, K, K + 1])), vf=8,
+                         ccs=max(1, rng.choice([K - 1, K, K + 1])))
+                yield c
 
 
 def shrink(case):
